@@ -223,6 +223,7 @@ type hpRun struct {
 	reader  bool
 	busy    bool
 	removed bool
+	interrupts int
 }
 
 func (h *hpRun) errFail(op string, err error) *failure {
@@ -351,6 +352,31 @@ func (h *hpRun) exec(op hpOp) *failure {
 		h.rc.class("req/answered/role=%s/groups=%s/result=%s", role, bucket(len(op.Groups)), bucket(len(want)))
 		kind, detail, id := comparePath(got, want, nil, true)
 		if kind == "" {
+			// The same request again, with a context that is cancelled while the
+			// lookup is under way: it may fail, but an answer given without error
+			// must be the complete one.
+			if len(want) >= 1 && !h.reader {
+				h.interrupts++
+				ictx := newPollCtx(h.ctx, int(h.interrupts*5)%23)
+				segs2, err2 := h.auth.Segments(ictx, hiddenpath.SegmentRequest{GroupIDs: toGroupIDs(op.Groups),
+					DstIA: addr.IA(op.Dst), Peer: addr.IA(op.Peer)})
+				h.rc.eval()
+				if err2 != nil {
+					h.rc.event("request_interrupted_error")
+					h.rc.class("req/interrupted/error/result=%s", bucket(len(want)))
+					return nil
+				}
+				h.rc.event("request_interrupted_answered")
+				h.rc.class("req/interrupted/answered/result=%s", bucket(len(want)))
+				got2 := make([]storeref.PathResult, 0, len(segs2))
+				for _, m := range segs2 {
+					got2 = append(got2, storeref.PathResult{ID: idOf(m.Segment), Type: int(m.Type), Content: fingerprint(m.Segment)})
+				}
+				if k2, d2, _ := comparePath(got2, want, nil, true); k2 != "" {
+					return failf("C45:request:interrupted:"+k2, "request by %x for groups %x to %x with a context cancelled during the lookup was answered without error, but: %s",
+						op.Peer, op.Groups, op.Dst, d2)
+				}
+			}
 			return nil
 		}
 		why := ""
@@ -559,7 +585,7 @@ func checkC45(r *mon.Run) {
 	n := devLimit(r.Pick(600, 16000))
 	parallel(n, workers(), func(i int) { oneHPHistory(r, i, dir) })
 
-	r.Require(int64(n)*15, 45,
+	r.Require(int64(n)*15, 45, "request_interrupted_error", "request_interrupted_answered",
 		"register_ok", "register_unknown-group", "register_not-writer", "register_not-registry", "register_not-down",
 		"register_not-verified", "register_equal_version_second_group",
 		"request_ok", "request_unknown-group", "request_not-member", "request_not-authoritative",
